@@ -283,7 +283,7 @@ def _mutseq_check(prop, tier, judge_name):
                                       % (clause, label))
         else:
             names = ALT_NAMES[names_idx]
-            fails = mutseq.c18_failures(rec, obs, names)
+            fails = mutseq.c18_failures(rec, obs, names, start_sig)
             for cls, detail in fails:
                 clause = ('RebuildsNotWorse' if cls == 'more-rebuilds-than-unbatched'
                           else 'OneRebuildPerMergeableRun')
@@ -1349,9 +1349,14 @@ INVARIANT ExecuteOnlyIfReaches
                 def _keys(m_):
                     a_ = m_.get('attrs') or {}
                     return set(a_ if isinstance(a_, dict) else dict(a_))
+                idx_ = item[0]['seq'].index(x)
                 hit = (x.get('k'), x.get('ftype') not in (None, 'None') and x.get('k') == 'Chg',
                        # which attribute the perturbation states, and on what kind of column
-                       tuple(sorted(_keys(y) - _keys(x))), x.get('ftype') if x.get('k') == 'Add' else None)
+                       tuple(sorted(_keys(y) - _keys(x))), x.get('ftype') if x.get('k') == 'Add' else None,
+                       # the field the perturbed mutation is about is ADDED earlier in the same
+                       # evolution (the optimiser folds the two into one mutation)
+                       any(p_.get('k') == 'Add' and p_.get('m') == x.get('m') and p_.get('f') == x.get('f')
+                           for p_ in item[0]['seq'][:idx_]))
                 break
         strata.setdefault((item[0]['kind'], item[0]['prediction'],
                            item[0].get('npending', 1) == 0, item[0].get('reason'), hit), []).append(item)
@@ -1577,7 +1582,7 @@ INVARIANT RerunIsNoop
     report.add_tlc('Handover MaxK=1 M=3 (signal pairing of handover upgrades)', res.stats())
     by_cfg = {}
     for r in res.records:
-        if r.get('failFirst') or r.get('premarked') or r.get('moveSql'):
+        if r.get('failFirst') or r.get('premarked') or r.get('moveSql') or r.get('newModel'):
             continue
         key = json_key([r['K'], r['S'], r['start'], sorted(r['companions'])], 0)
         by_cfg.setdefault(key, {})[r['run']] = r
@@ -3311,14 +3316,15 @@ INVARIANT SoftOnlyLegacyInitial
     by_cfg = {}
     for r in res.records:
         key = json_key([r['K'], r['S'], r['start'], sorted(r['companions']), bool(r.get('failFirst')),
-                        bool(r.get('premarked')), bool(r.get('moveSql')), bool(r.get('declares'))], 0)
+                        bool(r.get('premarked')), bool(r.get('moveSql')), bool(r.get('declares')),
+                        bool(r.get('newModel'))], 0)
         by_cfg.setdefault(key, {})[r['run']] = r
     items = sorted(by_cfg.items())
     rng = random.Random(seed() * 919 + 10)
     rng.shuffle(items)
     limit = 80 if tier == 'quick' else len(items)
     # keep every (start kind, S) combination represented
-    items.sort(key=lambda kv: (not kv[1][1].get('declares'), not kv[1][1].get('failFirst'),
+    items.sort(key=lambda kv: (not kv[1][1].get('declares'), not kv[1][1].get('newModel'), not kv[1][1].get('failFirst'),
                                not kv[1][1].get('premarked'), not kv[1][1].get('moveSql'),
                                kv[1][1]['start'][0], kv[1][1]['S']))
     chosen = items[::max(1, len(items) // limit)][:limit] if len(items) > limit else items
@@ -3329,7 +3335,7 @@ INVARIANT SoftOnlyLegacyInitial
         return H.replay({'K': r1['K'], 'S': r1['S'], 'start': r1['start'],
                          'companions': r1['companions'], 'failFirst': bool(r1.get('failFirst')),
                          'premarked': bool(r1.get('premarked')), 'moveSql': bool(r1.get('moveSql')),
-                         'declares': bool(r1.get('declares'))}, idx=i, M=M)
+                         'declares': bool(r1.get('declares')), 'newModel': bool(r1.get('newModel'))}, idx=i, M=M)
     with ThreadPoolExecutor(16) as ex:
         observations = list(ex.map(one, enumerate(chosen)))
     nontrivial = set()
@@ -3406,6 +3412,9 @@ INVARIANT SoftOnlyLegacyInitial
                                         for c in exp['columns']])
             if o['columns'] != exp_cols:
                 report.fail(dict(fp, **{'class': 'schema-differs'}), dict(detail, expected_columns=exp_cols))
+            if r1.get('newModel') and not o.get('tag_table'):
+                # the model that came with the handover version has no table
+                report.fail(dict(fp, **{'class': 'new-model-of-the-handover-version-has-no-table'}), detail)
             ce = exp.get('companion') or {}
             if ce.get('migBeforeMove'):
                 # the evolution that hands the app over declares AFTER_MIGRATIONS on the companion's
@@ -3718,7 +3727,7 @@ INVARIANT RerunIsNoop
     res = require_ok(run_tlc('Handover', cfg, workers=4, timeout=3000), 'Handover.tla')
     report.add_tlc('Handover MaxK=1 M=3 (declared AFTER_MIGRATIONS next to the move)', res.stats())
     recs = [r for r in res.records if r.get('declares') and r['run'] == 1
-            and not r.get('failFirst') and not r.get('premarked')]
+            and not r.get('failFirst') and not r.get('premarked') and not r.get('newModel')]
     rng = random.Random(seed() * 131 + 9)
     rng.shuffle(recs)
     recs.sort(key=lambda r: (r['S'], r['K'], repr(r['start'])))
